@@ -227,7 +227,7 @@ def main():
             "obligations": len(okkeys),
             "discharged": len([k for k, v in okkeys.items() if all(o for o, _, _ in v)]),
             "samples": samples,
-            "functions_analysed": len(R.fns),
+            "functions_analysed": len(R.fns | F.touched),
             "call_sites_inspected": R.sites,
             "bodies_loaded": F.loaded_bodies,
             "facts_tree_hash": th,
@@ -249,7 +249,7 @@ def main():
     with open(os.path.join(EVDIR, prop + ".json"), "w") as fh:
         json.dump(ev, fh, indent=1)
     print("%s: %d instances, %d hold, %d known finding(s), %d violation(s); %d functions, %d sites; %.1fs" % (
-        prop, len(okkeys), ev["coverage"]["discharged"], nknown, nviol, len(R.fns), R.sites, time.time() - t0))
+        prop, len(okkeys), ev["coverage"]["discharged"], nknown, nviol, len(R.fns | F.touched), R.sites, time.time() - t0))
     return 1 if nviol else 0
 
 
